@@ -261,9 +261,26 @@ Definition ctl_move (r : rrun) : option (option mact * rrun) :=
     end
   end.
 
+(** the other arm of the flush loop's select. Once the helper goroutine has its answer ([StDone true]:
+    the stage before the removed one was interrupted) the loop may receive it at any iteration, also while
+    its input arm is ready. For chunks still queued that makes no difference (the drain loop that
+    follows forwards them), but the drain loop only looks at [len(Input)] and therefore never sees
+    the end of a closed input: taking the answer first keeps the link alive and rewires it, taking the
+    [nil] first closes it. [ctl_move] prefers the input arm; this is the alternative, a move of the
+    system whenever it is defined, and [r_conf] counts the instants at which it was. *)
+Definition ctl_alt (r : rrun) : option rrun :=
+  match r_ph r with
+  | PFlush p q effp (StDone true) false None =>
+    match nth_error (l_stubs (r_l r)) p with
+    | Some s => if s_in_closed s then Some (mkRun (r_l r) (r_gone r) (PDrain p q effp None) (r_ops r) (r_conf r + 1)) else None
+    | None => None
+    end
+  | _ => None
+  end.
+
 (** both a data move and a control move are possible at this instant: the real scheduler (and Go's
     select) may take either first; [ctl_first] fixes the choice, [r_conf] counts such instants *)
-Definition rstep (ctl_first : bool) (r : rrun) : option (option mact * rrun) :=
+Definition rstep0 (ctl_first : bool) (r : rrun) : option (option mact * rrun) :=
   match step_now (r_l r), ctl_move r with
   | Some l', Some (a, r') =>
     if ctl_first then Some (a, mkRun (r_l r') (r_gone r') (r_ph r') (r_ops r') (r_conf r + 1))
@@ -271,6 +288,16 @@ Definition rstep (ctl_first : bool) (r : rrun) : option (option mact * rrun) :=
   | Some l', None => Some (None, with_l r l')
   | None, Some x => Some x
   | None, None => None
+  end.
+
+Definition rstep (ctl_first : bool) (r : rrun) : option (option mact * rrun) :=
+  match rstep0 ctl_first r with
+  | Some (a, r') =>
+    Some (a, match ctl_alt r with
+             | Some _ => mkRun (r_l r') (r_gone r') (r_ph r') (r_ops r') (r_conf r' + 1)
+             | None => r'
+             end)
+  | None => None
   end.
 
 Definition phase_deadline (ph : phase) : option Z :=
@@ -345,6 +372,9 @@ Fixpoint rsearch (fuel : nat) (horizon : Z) (obs : list (Z * Z)) (oclosed : Z) (
   | O => None
   | S f =>
     let go := rsearch_go (rsearch f horizon obs oclosed) obs oclosed r in
+    match (match ctl_alt r with Some ra => go ra | None => None end) with
+    | Some x => Some x
+    | None =>
     match step_now (r_l r), ctl_move r with
     | Some l', Some (_, r') =>
       match go (mkRun l' (r_gone r) (r_ph r) (r_ops r) (r_conf r + 1)) with
@@ -360,5 +390,6 @@ Fixpoint rsearch (fuel : nat) (horizon : Z) (obs : list (Z * Z)) (oclosed : Z) (
         else if final_ok obs oclosed r then Some r else None
       | None => if final_ok obs oclosed r then Some r else None
       end
+    end
     end
   end.
